@@ -13,7 +13,7 @@ TIERS = {
     "quick": {"runs": 4000, "max_wall": 240, "minimise_s": 25, "chunk": 50},
     "thorough": {"runs": 150000, "max_wall": 3000, "minimise_s": 60, "chunk": 200},
 }
-FAULT_KINDS = ["raising event callback", "invalid frames interleaved", "raising publish callback"]
+FAULT_KINDS = ["raising event callback", "invalid frames interleaved", "raising publish callback", "backlog: 257-520 lines in one chunk"]
 REAL, STUBS, ASSUMPTIONS = netcheck.REAL, netcheck.STUBS, netcheck.ASSUMPTIONS
 REQUIRED_PROBES = ["accepted_lines", "rejected_lines"]
 WEIGHTS = {"present_node": 10, "present_child": 14, "value": 18, "battery": 5, "sketch": 5, "heartbeat": 5, "presleep": 5, "unknown_traffic": 6,
@@ -35,6 +35,17 @@ def gen(rng, tier, index):
         cfg["sched"] = {"policy": "rw", "seed": rng.getrandbits(32), "p": rng.choice([0.01, 0.04, 0.15])}
         cfg["max_steps"] = 1_500_000
         ops = netgen.chunkify(rng, ops, max_lines=6, p_join=0.8)
+    if cfg["flavour"] in ("serial", "tcp", "aserial", "atcp") and rng.random() < 0.03:
+        # a backlog: the gateway device dumps several hundred lines at once (it buffered while the host was busy); the reader
+        # frames and queues all of them before the pump gets to the first - every accepted one is in the tree afterwards
+        nid = rng.choice([60, 61])
+        n_lines = rng.choice([257, 300, 520])
+        big = [[f"{nid};255;0;0;17;2.0", "\n"]]
+        for k in range(n_lines):
+            cid = k % 120
+            big.append([f"{nid};{cid};0;0;6;c{k}" if k < 120 else f"{nid};{cid};1;0;0;{k}", "\n"])
+        ops.insert(rng.randrange(len(ops) // 2, len(ops) + 1), ["chunk", big])
+        cfg["max_steps"] = 3_000_000
     return {"cfg": cfg, "ops": ops}
 
 
